@@ -1,7 +1,73 @@
-From Cicada Require Import Model.Jobs Proofs.JobsSpec.
-From Coq Require Import ZArith List.
+(** C06 -- the job table tracks exactly the live jobs under every order of child events.
+    Statements only; proofs are in Proofs/JobsProofs.v and Proofs/JobsInv.v, the
+    decidable specification (valid / good) in Proofs/JobsSpec.v. The model
+    (Model/Jobs.v) follows /repo after the repairs bbf8fc1, 2503a9b, ac01883,
+    ac20f13, 1687e77. *)
+From Cicada Require Import Model.Jobs Proofs.JobsSpec Proofs.JobsProofs Proofs.JobsInv.
+From Coq Require Import ZArith List Bool.
 Import ListNotations.
-Definition C06_full : Prop := forall h, valid h = true -> good h = true.
-Example C06_regressions : forallb good [w_count_waited; w_stop_cont_parked; w_exit_among_stopped; w_partial_continue; w_good; w_exit_only] = true.
+Local Open Scope Z_scope.
+
+(** Full statement: after every valid history -- launches of foreground and
+    background jobs of any size with fresh pids in any order, per process
+    (stop cont)* then exit|kill, any interleaving, every delivery point
+    (foreground wait of another job, or the prompt-time poll) -- the state
+    after the last operation is good: after a poll that leaves nothing pending
+    the table lists exactly the jobs with a live process, each process Running /
+    Stopped as it is, a job Stopped iff all its live members are stopped; a
+    foreground wait returns exactly when no member runs, with the last member's
+    status. Every prefix of a valid history is valid, so this is a statement
+    about the state after every operation. *)
+Definition C06_full_statement : Prop := forall h, valid h = true -> good h = true.
+
+Theorem C06_full : C06_full_statement.
+Proof. intros h V. apply (valid_good h V). Qed.
+
+(** The invariant behind it, after every operation of every valid history:
+    well-formed table (unique ordered ids, distinct groups, no pid twice, no
+    empty job, job Stopped iff every member is in its stopped set), a parked stop
+    and a parked continue never coexist, and the true state of every launched
+    process is what the table says once the parked statuses are applied. *)
+Theorem C06_invariant : forall h, valid h = true ->
+  exists C, all_events h = C ++ r_pend (run h) /\ INV (r_sh (run h)) C (launched h).
+Proof. intros h V. destruct (valid_good h V) as ((C & G1 & G2 & _) & _). exists C. auto. Qed.
+
+(** Clause "unique ids, a new job takes the smallest unused one": every
+    history (valid or not, any statuses, any pids). *)
+Theorem C06_ids : forall h,
+  NoDup (map jid (tab (r_sh (run h)))) /\
+  forall gid pid bg, (forall j, In j (tab (r_sh (run h))) -> jgid j <> gid) ->
+    exists k, least_unused k (tab (r_sh (run h))) /\
+      In (new_job k gid pid bg) (insert_job (tab (r_sh (run h))) gid pid bg) /\
+      forall j, In j (tab (r_sh (run h))) -> In j (insert_job (tab (r_sh (run h))) gid pid bg).
+Proof. exact ids_unique_and_least. Qed.
+
+(** Recording an exit / kill removes exactly the first occurrence of the pid
+    from the first job of its group, for every table and every pid vector. *)
+Theorem C06_remove_pid : forall t gid pid, remove_pid_from_job t gid pid = remove_spec t gid pid.
+Proof. exact remove_pid_exact. Qed.
+
+(** Regression: the witnesses of the five defects repaired in /repo are valid
+    histories and are good now (at every prefix). *)
+Example C06_regressions :
+  forallb (fun w => andb (valid w) (forallb (fun k => good (firstn k w)) (seq 0 (S (length w)))))
+    [w_count_waited; w_stop_cont_parked; w_exit_among_stopped; w_partial_continue;
+     [Launch 9 [9; 3] false; Wait 9 [9; 3] [Exited 9 0; Exited 3 0]; Poll []]] = true.
 Proof. vm_compute. reflexivity. Qed.
-Print Assumptions C06_regressions.
+
+(** Non-vacuity: histories meeting the hypothesis, with pid vectors not
+    ascending, background exits reaped by a foreground wait, kills, stop and
+    continue of members of multi-process jobs and of single-process jobs. *)
+Example C06_nonvacuous :
+  valid w_good = true /\ valid w_exit_only = true /\
+  map (fun j => (jpids j, jst j)) (tab (r_sh (run (firstn 5 w_exit_only)))) = [([6], Running)] /\
+  map (fun j => (jpids j, jstopped j, jst j)) (tab (r_sh (run w_partial_continue))) = [([5; 6], [6], Running)] /\
+  map (fun j => (jpids j, jstopped j, jst j)) (tab (r_sh (run w_exit_among_stopped))) = [([5], [5], Stopped)].
+Proof. vm_compute. repeat split. Qed.
+
+Check C06_full : forall h, valid h = true -> good h = true.
+
+Print Assumptions C06_full.
+Print Assumptions C06_invariant.
+Print Assumptions C06_ids.
+Print Assumptions C06_remove_pid.
